@@ -281,6 +281,19 @@ func pointerShaped(t types.Type) bool {
 }
 
 func (st *State) constString(s string) V {
+	// one address per distinct constant: the same literal is the same string wherever it is written
+	if v, ok := st.strConst[s]; ok {
+		return v
+	}
+	v := st.constString1(s)
+	if st.strConst == nil {
+		st.strConst = map[string]V{}
+	}
+	st.strConst[s] = v
+	return v
+}
+
+func (st *State) constString1(s string) V {
 	st.x.fresh++
 	n := fmt.Sprintf("str_%d", st.x.fresh)
 	st.decl(n, sortBV(64))
@@ -644,6 +657,14 @@ func (x *Exec) runBlock(st *State, b *ssa.BasicBlock, prev *ssa.BasicBlock) []Ou
 				x.checkLoop(st, fr, ld, spec, false)
 				return nil
 			}
+			for _, phi := range phis {
+				if phi.Comment != "" {
+					if fr.entryVals == nil {
+						fr.entryVals = map[string]V{}
+					}
+					fr.entryVals["entry_"+phi.Comment] = st.env[phi]
+				}
+			}
 			x.checkLoop(st, fr, ld, spec, true)
 			x.cutLoop(st, fr, ld, spec, phis)
 		}
@@ -678,6 +699,23 @@ func (x *Exec) loopEnv(st *State, fr *Frame, ld *loopDesc) *CEnv {
 		}
 		if phi.Comment != "" {
 			vars[phi.Comment] = st.env[phi]
+		}
+	}
+	for k, v := range fr.entryVals {
+		vars[k] = v
+	}
+	// range-over-slice loops: rangelen is the length evaluated once before the loop
+	for _, in := range ld.head.Instrs {
+		if b, ok := in.(*ssa.BinOp); ok && b.Op == token.LSS {
+			if inc, ok := b.X.(*ssa.BinOp); ok && inc.Op == token.ADD {
+				if phi, ok := inc.X.(*ssa.Phi); ok && phi.Comment == "rangeindex" {
+					if v, has := st.env[b.Y]; has {
+						vars["rangelen"] = v
+					} else if c, isC := b.Y.(*ssa.Const); isC {
+						vars["rangelen"] = st.constant(c)
+					}
+				}
+			}
 		}
 	}
 	_, tp := x.contractFor(fr.fn)
@@ -826,8 +864,17 @@ func (x *Exec) runInstrsDry(st *State, b *ssa.BasicBlock, idx int) {
 func (x *Exec) havocLoop(st *State, fr *Frame, ld *loopDesc, phis []*ssa.Phi, mods map[string]bool) {
 	for _, phi := range phis {
 		old := st.env[phi]
+		if phi.Comment != "" {
+			if fr.entryVals == nil {
+				fr.entryVals = map[string]V{}
+			}
+			fr.entryVals["entry_"+phi.Comment] = old
+		}
 		nv := st.symbolic(phi.Type(), "loop_"+phi.Comment, nil, false)
 		copyProv(&nv, old)
+		if phi.Comment != "" {
+			fr.entryVals["head_"+phi.Comment] = nv // the variable's value at the head of the current iteration
+		}
 		{
 			var nl, ol []V
 			leaves(nv, &nl)
@@ -878,6 +925,11 @@ func (x *Exec) havocLoop(st *State, fr *Frame, ld *loopDesc, phis []*ssa.Phi, mo
 			st.assume(and(app("bvuge", nb, old), app("bvult", nb, bvLit(brkLimit, 64))))
 			st.brk[sp] = nb
 		}
+	}
+	// the memory at the head of the current iteration (athead(...) in atcall clauses)
+	fr.headMem = map[string]*MemVer{}
+	for sp, m := range st.mem {
+		fr.headMem[sp] = m
 	}
 }
 
